@@ -16,7 +16,7 @@ import z3
 
 from engine import xcheck
 
-from engine.pysym import Engine, Interp, SInt, SStr, SymRaise, Unsupported, digits_of, lift, lift_c, mk, sint_from_digits
+from engine.pysym import Engine, Interp, SBool, SInt, SStr, SymRaise, Unsupported, digits_of, lift, lift_c, mk, sint_from_digits
 from stix2 import utils
 from stix2.utils import Precision, PrecisionConstraint, STIXdatetime
 
@@ -62,6 +62,21 @@ class SymDT:
 
     def utcoffset(self):
         return dt.timedelta(0) if self.tzinfo is not None else None
+
+    def _cmp_expr(self, o, strict):
+        """instants in field order (both values are UTC or both naive in every use here)"""
+        if not isinstance(o, SymDT):
+            raise Unsupported("comparison of a modelled datetime with %r" % (type(o),))
+        a, b = [lift(self.f[k]) for k in FIELDS], [lift(o.f[k]) for k in FIELDS]
+        cases = [z3.And([a[j] == b[j] for j in range(i)] + [a[i] < b[i]]) for i in range(len(FIELDS))]
+        if not strict:
+            cases.append(z3.And([x == y for x, y in zip(a, b)]))
+        return z3.Or(cases)
+
+    def __lt__(self, o): return SBool(self._cmp_expr(o, True))
+    def __le__(self, o): return SBool(self._cmp_expr(o, False))
+    def __gt__(self, o): return SBool(o._cmp_expr(self, True)) if isinstance(o, SymDT) else self._cmp_expr(o, True)
+    def __ge__(self, o): return SBool(o._cmp_expr(self, False)) if isinstance(o, SymDT) else self._cmp_expr(o, False)
 
     def astimezone(self, tz=None):
         if tz is not pytz.utc and tz is not dt.timezone.utc:
@@ -888,6 +903,156 @@ def job_filename_injective(tier, seed):
                 m = s.model()
                 cands.append({"call": "replay_filename_text(%r, %r)" % (_concrete_text(m, ta.chars), _concrete_text(m, tb.chars)),
                               "desc": "two different modified texts share a file name"})
+    except Unsupported as e:
+        return _result(eng, I, bad, cands, samples, 0, asserting, t0, inconclusive="translator does not cover: %s" % e)
+    return _result(eng, I, bad, _dedupe(cands), samples, 0, asserting, t0)
+
+
+# ---------------------------------------------------------------- C11: the memory store tracks the latest version by instant
+def _instant_expr(f, frac):
+    """the instant of a canonical text as one integer: fields plus the fraction digits right-padded to microseconds"""
+    v = lift(f["Y"])
+    for k, base in (("M", 13), ("D", 32), ("h", 24), ("m", 60), ("s", 61)):
+        v = v * base + lift(f[k])
+    us = z3.IntVal(0)
+    digs = list(frac) + [z3.IntVal(0)] * (6 - len(frac))
+    for d in digs[:6]:
+        us = us * 10 + d
+    return v * 1000000 + us
+
+
+def replay_family_latest(ta, tb):
+    """real _ObjectFamily.add on two dict-kept versions: the later instant is the latest version, in both insertion orders"""
+    from stix2.datastore.memory import _ObjectFamily
+    ia, ib = utils.parse_into_datetime(ta), utils.parse_into_datetime(tb)
+    for first, second in ((ta, tb), (tb, ta)):
+        fam = _ObjectFamily()
+        fam.add({"id": "x--1", "modified": first})
+        fam.add({"id": "x--1", "modified": second})
+        if utils.parse_into_datetime(fam.latest_version["modified"]) != max(ia, ib):
+            return False
+    return True
+
+
+def job_family_latest(tier, seed):
+    """C11.d: _ObjectFamily.add (the memory store's per-id version family) on two versions whose modified values are TEXT, as for objects of
+    unregistered types: whichever order they arrive in, latest_version is the one with the greater instant -- for every pair of canonical
+    timestamp texts with 0..6 fraction digits (symbolic fields and digits)."""
+    from stix2.datastore import memory as MEM
+    t0 = time.time()
+    I = Interp(STUBS)
+    eng = Engine()
+    bad, cands, samples, asserting = 0, [], [], 0
+    fracs = [(6, 6), (4, 6), (3, 4), (None, 6), (None, 3), (3, 3), (1, 3), (None, None)] if tier == "quick" else \
+        [(x, y) for x in (None, 1, 2, 3, 4, 5, 6) for y in (None, 1, 2, 3, 4, 5, 6)]
+    try:
+        for nfa, nfb in fracs:
+            def body(eng):
+                fa, fb = fresh(eng, "a"), fresh(eng, "b")
+                ta, qa = _text(eng, fa, nfa, "a")
+                tb, qb = _text(eng, fb, nfb, "b")
+                fam = MEM._ObjectFamily()
+                oa, ob = {"id": "x--1", "modified": ta}, {"id": "x--1", "modified": tb}
+                I.call_function(MEM._ObjectFamily.add, [fam, oa], {})
+                I.call_function(MEM._ObjectFamily.add, [fam, ob], {})
+                return fa, fb, qa, qb, ta, tb, (fam.latest_version is oa), (fam.latest_version is ob)
+            for pc, (kind, val) in eng.explore(body):
+                if kind != "return":
+                    if isinstance(val, ValueError):
+                        continue             # a text the parser refuses cannot be stored
+                    return _result(eng, I, bad, cands, samples, 0, asserting, t0, inconclusive="raised %r" % (val,))
+                fa, fb, qa, qb, ta, tb, is_a, is_b = val
+                asserting += 1
+                ia, ib = _instant_expr(fa, qa), _instant_expr(fb, qb)
+                post = (ia >= ib) if is_a else (ib >= ia) if is_b else z3.BoolVal(False)
+                s = z3.Solver()
+                s.add(*pc)
+                s.add(z3.Not(post))
+                eng.queries += 1
+                r = xcheck.check(s)
+                if r == "unsat":
+                    if len(samples) < 4:
+                        samples.append({"fraction_digits": [nfa, nfb], "latest_is": "first" if is_a else "second",
+                                        "query": "pc and instant(latest) < instant(other)", "result": "unsat"})
+                    continue
+                if r != "sat":
+                    return _result(eng, I, bad, cands, samples, 0, asserting, t0, inconclusive="solver %s" % r)
+                bad += 1
+                m = s.model()
+                cands.append({"call": "replay_family_latest(%r, %r)" % (_concrete_text(m, ta.chars), _concrete_text(m, tb.chars)),
+                              "desc": "latest_version is not the version with the greater instant"})
+    except Unsupported as e:
+        return _result(eng, I, bad, cands, samples, 0, asserting, t0, inconclusive="translator does not cover: %s" % e)
+    return _result(eng, I, bad, _dedupe(cands), samples, 0, asserting, t0)
+
+
+def replay_composite_latest(texts):
+    """real CompositeDataSource.get over one single-version source per text (dict-kept objects): the greatest instant wins"""
+    from stix2.datastore import CompositeDataSource
+    from stix2.datastore.memory import MemorySource
+    comp = CompositeDataSource()
+    comp.add_data_sources([MemorySource([{"type": "x-t", "id": "x-t--311b2d2d-f010-4473-83ec-1edf84858f4c", "modified": t}], allow_custom=True) for t in texts])
+    got = comp.get("x-t--311b2d2d-f010-4473-83ec-1edf84858f4c")
+    return utils.parse_into_datetime(got["modified"]) == max(utils.parse_into_datetime(t) for t in texts)
+
+
+class _OneObjectSource:
+    """a data source member that answers get() with one stored dictionary (native stub: the member is not the subject here)"""
+    def __init__(self, obj):
+        self.obj = obj
+
+    def get(self, stix_id=None, _composite_filters=None):
+        return self.obj
+
+
+def job_composite_latest(tier, seed):
+    """C11.e / C18: CompositeDataSource.get picks, among the members' answers, the one with the greatest modified INSTANT -- three members
+    answering with dict-kept versions whose modified texts have symbolic fields/digits and different digit counts."""
+    from stix2.datastore import CompositeDataSource
+    t0 = time.time()
+    I = Interp(STUBS)
+    eng = Engine()
+    bad, cands, samples, asserting = 0, [], [], 0
+    fracs = [(6, 3, 4), (None, 6, 3), (3, 3, 3), (1, None, 6)] if tier == "quick" else \
+        [(x, y, z) for x in (None, 1, 3, 4, 6) for y in (None, 1, 3, 4, 6) for z in (None, 3, 6)]
+    try:
+        for nfs in fracs:
+            def body(eng):
+                fs_, qs, ts, objs = [], [], [], []
+                for n, nf in enumerate(nfs):
+                    f = fresh(eng, "abc"[n])
+                    t, q = _text(eng, f, nf, "abc"[n])
+                    fs_.append(f); qs.append(q); ts.append(t)
+                    objs.append({"id": "x--1", "modified": t})
+                comp = CompositeDataSource()
+                comp.data_sources = [_OneObjectSource(o) for o in objs]
+                got = I.call_function(CompositeDataSource.get, [comp, "x--1"], {})
+                return fs_, qs, ts, [got is o for o in objs]
+            for pc, (kind, val) in eng.explore(body):
+                if kind != "return":
+                    if isinstance(val, ValueError):
+                        continue
+                    return _result(eng, I, bad, cands, samples, 0, asserting, t0, inconclusive="raised %r" % (val,))
+                fs_, qs, ts, which = val
+                asserting += 1
+                inst = [_instant_expr(f, q) for f, q in zip(fs_, qs)]
+                k = which.index(True) if True in which else None
+                post = z3.BoolVal(False) if k is None else z3.And([inst[k] >= x for x in inst])
+                s = z3.Solver()
+                s.add(*pc)
+                s.add(z3.Not(post))
+                eng.queries += 1
+                r = xcheck.check(s)
+                if r == "unsat":
+                    if len(samples) < 3:
+                        samples.append({"fraction_digits": list(nfs), "chosen_member": k, "query": "pc and some other member is later", "result": "unsat"})
+                    continue
+                if r != "sat":
+                    return _result(eng, I, bad, cands, samples, 0, asserting, t0, inconclusive="solver %s" % r)
+                bad += 1
+                m = s.model()
+                cands.append({"call": "replay_composite_latest(%r)" % ([_concrete_text(m, t.chars) for t in ts],),
+                              "desc": "composite get() does not return the greatest instant"})
     except Unsupported as e:
         return _result(eng, I, bad, cands, samples, 0, asserting, t0, inconclusive="translator does not cover: %s" % e)
     return _result(eng, I, bad, _dedupe(cands), samples, 0, asserting, t0)
